@@ -13,6 +13,7 @@
 //            "pre":[output index whose final name exists before],
 //            "prepart":[name index whose '.part' file exists before (left by a run that died)]}
 #include "common.h"
+#include <functional>
 #include "records.h"
 #include <dirent.h>
 #include <sys/uio.h>
@@ -301,7 +302,15 @@ static ChildResult run_child(const json& sc, const std::string& dir, int crash_a
         g_crash_at = crash_at; g_fault_at = fault_at; g_fault_persistent = persistent; g_fault_kind = fkind;
         g_count = 0; g_hooks = true;
         int devnull = ::open("/dev/null", O_WRONLY); dup2(devnull, 2);
-        { Runner r(sc, dir, apifd); r.run_steps(chunks); }
+        if (sc.value("unwind", false)) {
+            // the whole session (construction, writes, rotations, destruction) runs inside a clean-up routine while an
+            // unrelated exception of the application unwinds the stack: a legitimate place to produce an output
+            struct Cleanup { std::function<void()> f; ~Cleanup() { f(); } };
+            try {
+                Cleanup c{[&] { Runner r(sc, dir, apifd); r.run_steps(chunks); }};
+                throw std::runtime_error("unrelated application error");
+            } catch (std::runtime_error&) {}
+        } else { Runner r(sc, dir, apifd); r.run_steps(chunks); }
         _exit(0);
     }
     ChildResult res;
